@@ -22,7 +22,8 @@ RULE_TEXT = ("one run = 2-4 secured stations exchanging genuine CAM/VAM/DENM/gen
              "protocolVersion) and re-encodes, (c) signs with its own key under a self-made root/AA/AT chain, under a genuine ticket it does not own "
              "(digest or certificate), under re-signed / key-swapped certificates, under crafted certificates (own key, genuine AA named as issuer) "
              "whose signature octets sit in an unusual CHOICE / point form (Brainpool, P-384, SM2; r as compressed-y-*, uncompressed, fill; compressed "
-             "subject keys), the same encodings for the message signature over a genuine ticket, (d) sends unsecured copies of genuine payloads, (e) replays; "
+             "subject keys), the same encodings for the message signature over a genuine ticket, (d) sends unsecured copies of genuine payloads and "
+             "unsecured attacker-made SHB / GBC / GUC packets with the Basic Header next-header nibble drawn from {1, 0, 3..15}, (e) replays; "
              "every GN indication at every receiver must be justified by an independent verifier (raw ecdsa + chain check); trust stores are checked "
              "at the end; non-trivial = at least one adversary frame reached a receiver; distinct = distinct sequences of (adversary kind, outcome)")
 COMPONENTS = c05.COMPONENTS
@@ -33,6 +34,8 @@ ASSUMPTIONS = ["mutations that leave the decoded envelope identical (bits the OE
 EXPECTED_PROBES = ["adv:bitflip", "adv:byte", "adv:truncate", "adv:extend", "adv:field", "adv:attacker-chain", "adv:key-mismatch-cert",
                    "adv:key-mismatch-digest", "adv:unknown-digest", "adv:unsecured-copy", "adv:replay", "adv:resigned", "adv:key-swapped",
                    "adv:crafted-encoding", "adv-crafted:cert", "adv-crafted:msg", "adv-field:cert-sig-alg", "adv-field:cert-version-lowered",
+                   "adv:unsecured-nh", "adv-unsecured:nh=0", "adv-unsecured:nh=1", "adv-unsecured:nh>=3", "adv-unsecured:copy", "adv-unsecured:SHB",
+                   "adv-unsecured:GBC", "adv-unsecured:GUC",
                    "adv-frame-rejected", "genuine-delivered", "store-checked"]
 
 FIELD_EDITS = [
@@ -96,7 +99,12 @@ def gen_plan(run_seed: int, tier: str) -> dict:
     for k in range(r2.choice([0, 1, 1, 2, 3])):
         op = {"op": "adv", "t": r2.randint(50_000, dur + 200_000), "base": r2.randrange(1 << 20), "pos": r2.random(), "val": r2.randrange(256),
               "n": r2.randint(1, 40), "victim": r2.randrange(n), "tag": 1000 + k}
-        if r2.random() < 0.65:
+        c2 = r2.random()
+        if c2 < 0.25:
+            # unsecured packet (no envelope at all) with any Basic Header next-header value but SECURED_PACKET
+            op.update({"kind": "unsecured-nh", "nh": r2.choice([0, 0, 0, 1, 3, 4, 7, 15, r2.randrange(3, 16)]),
+                       "shape": r2.choice(["copy", "copy", "SHB", "GBC", "GUC"]), "psid": r2.choice([36, 37, 638, 99]), "form": "none"})
+        elif c2 < 0.75:
             what = "cert" if r2.random() < 0.7 else "msg"
             alg = r2.choice(sc.SIG_ALGS) if r2.random() < 0.5 else sc.SIG_ALGS[0]
             r_form = r2.choice(sc.R_FORMS[1:]) if (alg != sc.SIG_ALGS[0] or r2.random() < 0.85) else "x-only"
@@ -133,6 +141,30 @@ class Sim(SecNetSim):
         self.probe("adv:" + kind)
         now_its_us = sc.its_us(self.kernel.now_us)
         frame = None
+        if kind == "unsecured-nh":
+            nh = op["nh"] & 0x0F
+            cls = "nh=%d" % nh if nh < 3 else "nh>=3"
+            inner, shape = None, op["shape"]
+            if shape == "copy":
+                cands = [t for t in genuine if t["m"].payload is not None]
+                if cands:
+                    base = cands[op["base"] % len(cands)]
+                    entry["base"] = base
+                    inner = base["m"].payload
+                else:
+                    shape = "SHB"
+            if inner is None:
+                inner = self._inner_payload(op, shape)
+                entry["forged_payload"] = inner
+            entry["detail"] = "%s/%s" % ("unsecured-copy" if shape == "copy" else "unsecured-made", cls)
+            self.probe("adv-unsecured:" + cls)
+            self.probe("adv-unsecured:" + shape)
+            entry["frame"] = bytes([0x10 | nh, 0, 26, 1]) + inner
+            self.fault("inject")
+            self.fault("forge")
+            entry["tx"] = self.transmit(adv, entry["frame"], injected=True)
+            self.adv_log.append(entry)
+            return
         if kind in ("bitflip", "byte", "truncate", "extend", "field", "replay", "unsecured-copy"):
             if not genuine:
                 rec["skipped"] = True
@@ -232,8 +264,8 @@ class Sim(SecNetSim):
         entry["tx"] = self.transmit(adv, frame, injected=True)
         self.adv_log.append(entry)
 
-    def _inner_payload(self, op) -> bytes:
-        """A plausible signed GN-PDU (common header + SHB extended header + BTP + data) made by the adversary."""
+    def _inner_payload(self, op, shape: str = "SHB") -> bytes:
+        """A plausible GN-PDU without basic header (common header + SHB / GBC / GUC extended header + BTP + data) made by the adversary."""
         adv = next(s for s in self.stations if s.role == "peer")
         body = rc.enc_btp(2001 if op["psid"] == 36 else 2018 if op["psid"] == 638 else 2002 if op["psid"] == 37 else 99, 0) + \
             b"FORGED" + op["tag"].to_bytes(2, "big") + bytes([op["val"]]) * (op["n"] % 9)
@@ -241,6 +273,16 @@ class Sim(SecNetSim):
               "pai": 0, "speed": 0, "heading": 0}
         pkt = {"basic": {"nh": 1, "lt": 26, "rhl": 1}, "common": {"nh": 2, "ht": rc.HT_TSB, "hst": 0, "tc": 0, "flags": 0, "mhl": 1},
                "so": so, "payload": body}
+        if shape == "GBC":
+            pkt["common"].update({"ht": rc.HT_GBC, "hst": 0})
+            pkt["sn"] = (op["tag"] * 251 + op["val"]) & 0xFFFF
+            pkt["area"] = {"lat": adv.pos[0], "lon": adv.pos[1], "a": 2000, "b": 2000, "angle": 0}
+        elif shape == "GUC":
+            from ..wiremon import ego_fields
+            vic = ego_fields(self.stations[op["victim"]].ego())
+            pkt["common"].update({"ht": rc.HT_GUC, "hst": 0})
+            pkt["sn"] = (op["tag"] * 251 + op["val"]) & 0xFFFF
+            pkt["de"] = {"addr": vic["addr"], "tst": vic["tst"], "lat": vic["lat"], "lon": vic["lon"]}
         return rc.build_packet(pkt)[4:]
 
 
